@@ -77,3 +77,65 @@ class AfmSetParseTree:
 
     def post_parser_reports_to_collector(self, parser, error_listener, result):
         return reports_only_to(parser, error_listener)
+
+
+# ------------------------------------------------------------------ FaMa XML: requires / excludes elements
+def same_shape(node, op, left, right):
+    """the constraint tree is `op` over the two names (natively on the real Node objects; a prim in proofs)"""
+    return (node is not None and node.data == op and node.left is not None and node.right is not None
+            and node.left.data == left and node.right.data == right
+            and node.left.left is None and node.left.right is None and node.right.left is None and node.right.right is None)
+
+
+@contract(TR + 'xml_reader.py', 'XMLReader.parse_ctc', prop='C09')
+class FamaParseCtc:
+    """a <requires name=N feature=A requires=B/> (resp. <excludes ... excludes=B/>) element becomes the constraint named N
+    'A requires B' (resp. 'A excludes B') between the named features; an element without a name, or naming a feature the
+    document does not define, raises"""
+    kinds = {'element': 'Element'}
+    raises = ('FlamaException',)
+
+    @staticmethod
+    def gen_self(model):
+        from flamapy.metamodels.fm_metamodel.transformations import XMLReader
+        from standin import models as M
+        r = XMLReader('unused.xml')
+        r.name_feature = {f.name: f for f in M.all_features(model)}
+        return [r]
+
+    @staticmethod
+    def gen_element(model):
+        from xml.etree.ElementTree import Element
+        from standin import models as M
+        names = [f.name for f in M.all_features(model)][:3] + ['no such feature']
+        out = []
+        for tag in ('requires', 'excludes', 'Requires'):
+            for a in names[:2]:
+                for b in names[1:]:
+                    out.append(Element(tag, {'name': f'{tag}-{a}-{b}', 'feature': a, tag.lower(): b}))
+        out.append(Element('requires', {'feature': names[0], 'requires': names[0]}))           # no name
+        out.append(Element('excludes', {'name': 'x', 'feature': names[0], 'requires': names[0]}))  # wrong attribute
+        return out
+
+    def pre(self, element):
+        return element.tag.casefold() == 'requires' or element.tag.casefold() == 'excludes'
+
+    def post_name(self, element, result):
+        return result.name == element.attrib.get('name')
+
+    def post_requires(self, element, result):
+        if element.tag.casefold() != 'requires':
+            return True
+        return same_shape(result.ast.root, ASTOperation.REQUIRES,
+                          self.name_feature[element.attrib.get('feature')].name,
+                          self.name_feature[element.attrib.get('requires')].name)
+
+    def post_excludes(self, element, result):
+        if element.tag.casefold() != 'excludes':
+            return True
+        return same_shape(result.ast.root, ASTOperation.EXCLUDES,
+                          self.name_feature[element.attrib.get('feature')].name,
+                          self.name_feature[element.attrib.get('excludes')].name)
+
+    def post_features_are_defined(self, element, result):
+        return element.attrib.get('feature') in self.name_feature
